@@ -286,7 +286,7 @@ class CodeGenerator(nunavut._generators.AbstractGenerator):
     ) -> None:
         newline_pattern = re.compile(r"\n|\r\n", flags=re.MULTILINE)
         line_buffer = io.StringIO()
-        for part in template_gen:
+        for part in _rejoin_split_crlf(template_gen):
             search_pos = 0  # type: int
             match_obj = newline_pattern.search(part, search_pos)
             while True:
@@ -1004,3 +1004,20 @@ class SupportGenerator(CodeGenerator):
                         resource_line_tuple = line_pp(resource_line_tuple)
                     target_file.write(resource_line_tuple[0])
                     target_file.write(resource_line_tuple[1])
+
+
+def _rejoin_split_crlf(parts: typing.Iterable[str]) -> typing.Generator[str, None, None]:
+    """
+    Yields the given parts such that no part ends with a carriage return: a trailing "\r" is held back and
+    prepended to the next part so a "\r\n" line ending split across two parts is seen as one line ending.
+    """
+    pending_cr = ""
+    for part in parts:
+        part = pending_cr + part
+        pending_cr = ""
+        if part.endswith("\r"):
+            part = part[:-1]
+            pending_cr = "\r"
+        yield part
+    if pending_cr:
+        yield pending_cr
